@@ -920,3 +920,84 @@ Proof.
   now apply Hone with s1.
 Qed.
 
+
+(** * A refused replier is told, then closed (C10) *)
+
+(** the rejection of replier [l] is under way: it sits in the one-slot buffer, or the router is at
+    one of the three calls on its sink *)
+Definition rejecting (s : rst) (l : N) : Prop :=
+  match b_err s with Some (_, l') => l' = l | None => False end
+  \/ rctl s = RErrReady l \/ rctl s = RErrSend l \/ rctl s = RErrClose l.
+
+Definition RejInv (s : rst) : Prop :=
+  (forall l, In l (h_closed (rgh s)) -> In l (h_told (rgh s)))
+  /\ (forall l, b_err s = Some (false, l) -> In l (h_told (rgh s)))
+  /\ (match rctl s with RErrClose l => In l (h_told (rgh s)) | _ => True end)
+  /\ (past_err (rctl s) = true -> b_err s = None)
+  /\ (match rctl s with RErrReady _ | RErrSend _ | RErrClose _ => b_err s = None | _ => True end)
+  /\ (forall l, In l (h_rejected (rgh s)) ->
+        In l (h_closed (rgh s)) \/ In l (h_rej_failed (rgh s)) \/ rejecting s l).
+
+Ltac rej_solve H1 H2 H3 H5 H6 :=
+  unfold rejecting in *; rsimp; cbn [past_err past_reply In] in *;
+  repeat match goal with |- _ /\ _ => split end;
+  intros; cbn [In] in *; try discriminate;
+  try match goal with x : N |- _ =>
+        pose proof (H1 x); pose proof (H2 x); pose proof (H6 x);
+        clear H1 H2 H6 end;
+  repeat match goal with Hin : In _ (_ ++ _) |- _ => apply in_app_or in Hin; cbn [In] in Hin end;
+  repeat match goal with Hh : ?a = ?a -> _ |- _ => specialize (Hh eq_refl) end;
+  repeat match goal with Hc : rctl ?s = ?v |- _ => progress (rewrite Hc in * ) end;
+  repeat match goal with Hb : b_err ?s = ?v |- _ => progress (rewrite Hb in * ) end;
+  repeat match goal with Hd : (_ = _) \/ _ |- _ => destruct Hd as [Hd|Hd]; try discriminate end;
+  repeat match goal with
+         | Hi : RErrClose _ = RErrClose _ |- _ => injection Hi as ?; subst
+         | Hi : RErrReady _ = RErrReady _ |- _ => injection Hi as ?; subst
+         | Hi : RErrSend _ = RErrSend _ |- _ => injection Hi as ?; subst
+         | Hi : Some (_, _) = Some (_, _) |- _ => injection Hi as ? ?; subst
+         end;
+  repeat match goal with
+         | Hh : ?a = ?a -> _ |- _ => specialize (Hh eq_refl)
+         | Hh : (?a = ?a \/ _) -> _ |- _ => specialize (Hh (or_introl eq_refl))
+         | Hh : (_ \/ ?a = ?a \/ _) -> _ |- _ => specialize (Hh (or_intror (or_introl eq_refl)))
+         | Hh : (_ \/ _ \/ ?a = ?a) -> _ |- _ => specialize (Hh (or_intror (or_intror eq_refl)))
+         end;
+  try solve [intuition (subst; try congruence; try discriminate; eauto)].
+
+Lemma rejinv_internal s s' : RejInv s -> rinternal s = Some s' -> RejInv s'.
+Proof.
+  unfold RejInv. intros (H1 & H2 & H3 & H4 & H5 & H6) H. unfold rinternal in H.
+  crush_matches H; injection H as <-;
+    try match goal with Hc : rctl s = _ |- _ => rewrite Hc in H3, H4, H5 end;
+    cbn [past_err past_reply] in H4;
+    repeat match goal with Hb : b_err s = _ |- _ => rewrite Hb in * end;
+    rej_solve H1 H2 H3 H5 H6.
+Qed.
+
+Lemma rejinv_step_raw s e s' : RejInv s -> rstep_raw s e = Some s' -> RejInv s'.
+Proof.
+  unfold RejInv. intros (H1 & H2 & H3 & H4 & H5 & H6) H. unfold rstep_raw, router_pass in H.
+  crush_matches H; injection H as <-;
+    try match goal with Hc : rctl s = _ |- _ => rewrite Hc in H3, H4, H5 end;
+    cbn [past_err past_reply] in H4;
+    repeat match goal with Hb : b_err s = _ |- _ => rewrite Hb in * end;
+    rej_solve H1 H2 H3 H5 H6.
+Qed.
+
+Lemma rejinv_init : RejInv rinit.
+Proof. unfold RejInv. cbn. repeat split; intros; try contradiction; try discriminate; auto. Qed.
+
+(** every replier that was refused because another one was bound is, at any moment, either being
+    dealt with (its rejection is in the one-slot buffer or the router is calling its sink), or done
+    with: [poll_close] completed on its sink -- and then the replier-already-bound error frame had
+    been accepted by that sink before -- or its sink failed before the frame could be written *)
+Theorem rr_rejected_told_then_closed tr s : rrun rinit tr = Some s ->
+  (forall l, In l (h_closed (rgh s)) -> In l (h_told (rgh s)))
+  /\ (forall l, In l (h_rejected (rgh s)) ->
+         In l (h_closed (rgh s)) \/ In l (h_rej_failed (rgh s)) \/ rejecting s l).
+Proof.
+  intros H. assert (HI : RejInv s).
+  { revert H. apply (lift_run RejInv); [exact rejinv_internal|exact rejinv_step_raw|exact rejinv_init]. }
+  destruct HI as (H1 & _ & _ & _ & _ & H6). split; assumption.
+Qed.
+
